@@ -75,6 +75,15 @@ class Index:
                     if nme in table:
                         dup.add(nme)
                     table[nme] = st.value
+                if isinstance(st, ast.ClassDef):
+                    # class-level literal tables, addressed as `Class.NAME`
+                    for cs in st.body:
+                        if isinstance(cs, ast.Assign) and len(cs.targets) == 1 and isinstance(cs.targets[0], ast.Name) and not any(
+                                isinstance(n, (ast.Name, ast.Call, ast.Attribute)) for n in ast.walk(cs.value)):
+                            nme = f"{st.name}.{cs.targets[0].id}"
+                            if nme in table:
+                                dup.add(nme)
+                            table[nme] = cs.value
         for d in dup:
             table.pop(d, None)
         return table
